@@ -188,6 +188,23 @@ def generate(seed, tier):
             pre = [[rng.choice(heavy), dict(OPTSETS[rng.choice([1, 1, 3])])] for _ in range(n_pre)]
             hist[0:0] = pre
             used.update(i for i, _o in pre)
+        precreate = 0
+        if with_imports and relib and rng.random() < 0.25:
+            # compilers constructed up front, then the process moves to another directory with
+            # its own (other) build of the libraries
+            precreate = rng.randint(2, 6)
+            pos = rng.randrange(min(3, len(hist)) + 1)
+            hist.insert(pos, [-1, {"chdir": "../other_store", "relib": 1 - libver}])
+        optobjs = []
+        if rng.random() < 0.3:
+            # the host keeps one options dictionary, changes a key for the next target and passes
+            # the very same object again; keys it never set are absent
+            optobjs = [rng.choice([{}, {"wasm": True}, {"optimize": True}, {"wasm": False}]) for _ in range(rng.randint(1, 2))]
+            for j in range(len(hist)):
+                if hist[j][0] >= 0 and "debug-passes" not in hist[j][1] and rng.random() < 0.5:
+                    kobj = rng.randrange(len(optobjs))
+                    change = rng.choice([{}, {}, {"wasm": True}, {"wasm": False}, {"optimize": True}, {"optimize": False}])
+                    hist[j] = [hist[j][0], {"$obj": kobj, "$set": change}]
         cache = rng.choice(["valid", "valid", "absent", "stale", "unwritable"])
         if rng.random() < 0.04:
             cache = "torn"  # probe P4 (beyond the statement): never judged
@@ -198,6 +215,10 @@ def generate(seed, tier):
                 "cwd": rng.choice(["w0", "w1"]),
                 "libver": libver,
                 "history": hist,
+                "precreate": precreate,
+                "optobjs": optobjs,
+                # asserts stripped (python -O): judged only for sources that are accepted with asserts on
+                "pyopt": rng.random() < 0.12,
             }
         )
     # keep only the sources that are used; re-index
@@ -243,13 +264,13 @@ def _prepare_tree(dest, cache):
     return cache
 
 
-def run_proc(pdir, plan, hs, timeout=120):
+def run_proc(pdir, plan, hs, timeout=120, extra_env=None):
     os.makedirs(pdir, exist_ok=True)
     plan_path = os.path.join(pdir, "plan.json")
     plan["out"] = os.path.join(pdir, "result.json")
     with open(plan_path, "w") as f:
         json.dump(plan, f)
-    env = repo.child_env(plan["tree"], hs, {"PYTHONPYCACHEPREFIX": os.path.join(pdir, "pyc")})
+    env = repo.child_env(plan["tree"], hs, dict({"PYTHONPYCACHEPREFIX": os.path.join(pdir, "pyc")}, **(extra_env or {})))
     try:
         p = subprocess.run(
             [sys.executable, JOB, plan_path], cwd=pdir, env=env, capture_output=True, text=True, timeout=timeout,
@@ -318,8 +339,10 @@ def _execute(sc, root, want_texts):
             "lib_versions": sc.get("libs") if isinstance(sc.get("libs"), dict) else {},
             "history": [[sc["sources"][i] if i >= 0 else None, o] for i, o in pr["history"]],
             "texts": bool(want_texts),
+            "precreate": pr.get("precreate", 0),
+            "optobjs": pr.get("optobjs", []),
         }
-        res, err = run_proc(pdir, plan, pr["hs"])
+        res, err = run_proc(pdir, plan, pr["hs"], extra_env={"PYTHONOPTIMIZE": "1"} if pr.get("pyopt") else None)
         bump("processes")
         bump("cache_" + pr["cache"])
         if res is None:
@@ -347,12 +370,23 @@ def _execute(sc, root, want_texts):
         outs = []
         prev = "start"
         ver = pr.get("libver", 0)
+        objstate = [dict(x) for x in pr.get("optobjs", [])]
+        if pr.get("pyopt"):
+            bump("processes_with_asserts_stripped")
+        if pr.get("precreate"):
+            bump("processes_with_compilers_constructed_up_front")
         for pos, ((i, o), ob) in enumerate(zip(pr["history"], res["obs"])):
             if i < 0:
                 ver = o["relib"]
-                bump("probe_libraries_rebuilt_mid_history")
+                bump("probe_process_changed_directory" if "chdir" in o else "probe_libraries_rebuilt_mid_history")
                 prev = f"relib{ver}"
                 continue
+            if "$obj" in o:
+                # what the host has put into that dictionary so far is what it asked for
+                objstate[o["$obj"]].update(o.get("$set", {}))
+                st_ = objstate[o["$obj"]]
+                o = {"optimize": bool(st_.get("optimize", False)), "wasm": bool(st_.get("wasm", False))}
+                bump("jobs_with_a_reused_options_object")
             key = _key(sc, i, o)
             if "import " in sc["sources"][i]:
                 key += f"|libs-v{ver}"  # the store content is part of the input
@@ -367,6 +401,8 @@ def _execute(sc, root, want_texts):
                 bump("debug_passes_jobs")
             outcome = [kind, ob.get("ir"), ob.get("wasm")]
             ctx = {"proc": k, "pos": pos, "hs": pr["hs"], "cache": pr["cache"], "cwd": pr["cwd"], "prev": prev}
+            if pr.get("pyopt"):
+                ctx["pyopt"] = True
             if want_texts:
                 ctx["text"] = ob.get("text")
                 ctx["wasm_hex"] = ob.get("wasm_hex")
@@ -384,8 +420,18 @@ def _execute(sc, root, want_texts):
         if len(obs) >= 2:
             multi += 1
             bump("observation_pairs", len(obs) - 1)
-        first = obs[0]
-        for other in obs[1:]:
+        # asserts-stripped processes: compared among themselves always, and with normal processes
+        # only when the source is accepted there (an assert that rejects a program is not an output)
+        normal = [x for x in obs if not x[1].get("pyopt")]
+        stripped = [x for x in obs if x[1].get("pyopt")]
+        if normal and stripped and normal[0][0][0] != "ok":
+            groups = [normal, stripped]
+            bump("pyopt_observations_not_compared_with_normal_ones", len(stripped))
+        else:
+            groups = [normal + stripped]
+        for grp in groups:
+          first = grp[0] if grp else None
+          for other in grp[1:]:
             if other[0] != first[0]:
                 a, b = first, other
                 if a[0][0] != b[0][0]:
